@@ -16,7 +16,7 @@ PROPERTY = 'C09'
 LEVEL = 'exploration'
 TECHNIQUE = 'differential oracle over generated frame sets: real encode -> transport transformation -> real decode vs input; exhaustive small-class cross product'
 RULE = ('frame sets of 0-4 topics (normal+hidden names) x image class {none, GRAY, BGR, RGB} x layout {C, column-stride, '
-        'row-stride, negative strides, Fortran} x writability x backing {raw, jpg-undecoded, jpg-decoded, raw-with-cached-jpg} '
+        'row-stride, negative strides, Fortran} x writability x backing {raw, jpg-undecoded, jpg-decoded, raw-with-cached-jpg, jpg with the other channel count (undecoded/decoded)} '
         'x outputs_jpg {None, True, False} x sizes (boundary list incl. 1xN, Nx1, random up to 1500) x data classes; '
         'non-trivial = has an image or non-empty data; distinct = (format, layout, rw, backing, outputs_jpg, size class, data class)')
 ASSUMPTIONS = ['JPEG tolerance: mean abs error <= 2 x error of an independent imencode/imdecode of the same pixels + 4 grey levels',
@@ -28,7 +28,7 @@ SIZES_T = SIZES_Q + [(2, 2), (2, 3), (3, 2), (5, 9), (8, 7), (15, 16), (16, 17),
                      (100, 1), (1, 100), (127, 129), (128, 128), (200, 3), (3, 200), (255, 257), (256, 256), (300, 301),
                      (480, 640), (1, 1500), (1500, 1), (511, 513), (720, 2), (2, 720), (37, 1001), (1001, 37), (640, 480)]
 LAYOUTS = ['C', 'colstride', 'rowstride', 'negrow', 'negcol', 'fortran']
-BACKINGS = ['raw', 'jpg_undecoded', 'jpg_decoded', 'raw_cached_jpg']
+BACKINGS = ['raw', 'jpg_undecoded', 'jpg_decoded', 'raw_cached_jpg', 'jpgx_undecoded', 'jpgx_decoded']   # jpgx: the existing encoding has the other channel count (mono jpg declared BGR/RGB, colour jpg declared GRAY)
 FORMATS = ['GRAY', 'BGR', 'RGB']
 TOPIC_NAMES = ['main', 'other', 'cam2', '_metrics', '_filter', '_hid', 'a_b', 'x']
 
@@ -79,18 +79,38 @@ def layout(pix, lay):
     raise AssertionError(lay)
 
 
+class SenderDecodeFailed(Exception):
+    pass
+
+
+def decode_on_sender(f):
+    try:
+        f.image
+    except Exception as e:          # the real Frame asserts on the decoded shape
+        raise SenderDecodeFailed(f'{type(e).__name__}: {e}')
+
+
 def build_frame(Frame, fmt, size, lay, rw, backing, data, rs):
     import cv2
     if fmt is None:
         return Frame(data), None, None
     pix = make_pixels(fmt, size, rs)
+    if backing in ('jpgx_undecoded', 'jpgx_decoded'):
+        src = make_pixels('BGR' if fmt == 'GRAY' else 'GRAY', size, rs)
+        ok, buf = cv2.imencode('.jpg', src)
+        jpg = bytes(buf)
+        f = Frame.from_jpg(jpg, data, size[0], size[1], fmt)
+        dec = cv2.imdecode(np.frombuffer(jpg, np.uint8), cv2.IMREAD_COLOR if fmt != 'GRAY' else 0)
+        if backing == 'jpgx_decoded':
+            decode_on_sender(f)
+        return f, dec, jpg
     if backing in ('jpg_undecoded', 'jpg_decoded'):
         ok, buf = cv2.imencode('.jpg', pix)
         jpg = bytes(buf)
         f = Frame.from_jpg(jpg, data, size[0], size[1], fmt)
         dec = cv2.imdecode(np.frombuffer(jpg, np.uint8), cv2.IMREAD_COLOR if fmt != 'GRAY' else 0)
         if backing == 'jpg_decoded':
-            f.image
+            decode_on_sender(f)
         return f, dec, jpg
     arr = layout(pix, lay)
     assert np.array_equal(arr, pix)
@@ -191,7 +211,14 @@ def run_case(Frame, MQ, res, spec):
     built = {}
     for name, fmt, size, lay, rw, backing, dcls, rs in spec['topics']:
         data = DATA[dcls](random.Random(rs))
-        built[name] = build_frame(Frame, fmt, tuple(size) if size else None, lay, rw, backing, data, rs)
+        try:
+            built[name] = build_frame(Frame, fmt, tuple(size) if size else None, lay, rw, backing, data, rs)
+        except SenderDecodeFailed as e:
+            # constructing / decoding a valid jpg-backed frame on the sending side failed: the frame cannot be sent at all
+            res.evaluations += 1
+            bad = (f'decode-exception:{type(e).__name__}', f'topic {name}: {backing} {fmt} frame of size {size} cannot be built/decoded before sending: {e}')
+            res.violation(bad[0], f'{bad[1]}; case={json.dumps(spec)[:400]}', spec)
+            return bad
     res.evaluations += 1
     bad = check_case(MQ, spec, spec['oj'], built, res)
     nontriv = False
